@@ -25,6 +25,8 @@ func main() {
 		os.Exit(txtqrMain(os.Args[2:]))
 	case "tlspeer":
 		os.Exit(tlspeerMain(os.Args[2:]))
+	case "mdnsview":
+		os.Exit(mdnsviewMain(os.Args[2:]))
 	case "connstep":
 		os.Exit(connstepMain(os.Args[2:]))
 	default:
